@@ -87,6 +87,8 @@ class DataclassGenerator:
         context.add_import("typing", "Any")
 
         description = schema.description or "Generic JSON value object that preserves arbitrary data."
+        # The description is pasted into the class docstring of the wrapper templates: keep spec text inert there
+        description = description.replace("\\", "\\\\").replace('"""', '\\"\\"\\"').replace("\x00", "\\x00")
 
         # Determine value type from additionalProperties
         value_type = "Any"
